@@ -3,6 +3,7 @@ package main
 import (
 	"fmt"
 	"go/constant"
+	"go/token"
 	"go/types"
 	"sort"
 	"strings"
@@ -65,6 +66,8 @@ func checkC18(c *Ctx) {
 	r.Rule("C18.W2", "the text emitted on success is the library's value, unchanged, emitted once, never used as a format string", 3)
 	r.Rule("C18.W3", "failures print nothing to stdout and end with panic or a non-zero exit; no error result is discarded", 4)
 	r.Rule("C18.W4", "a file write is followed by a checked Sync", 1)
+	r.Rule("C18.W5", "the texts handed to the library are the contents of the named files, unchanged", 3)
+	w5seen := map[string]bool{}
 
 	// ---- W1 static part: flags of every os.OpenFile in cmd
 	for _, fn := range p.ModuleFuncs() {
@@ -241,6 +244,21 @@ func checkC18(c *Ctx) {
 				switch t.Kind {
 				case "lib":
 					hasLib = true
+					// W5: the texts handed to the library are the files' contents themselves
+					if ci, ok := t.Instr.(ssa.CallInstruction); ok {
+						for ai, a := range ci.Common().Args {
+							if !isStringType(a.Type()) {
+								continue
+							}
+							k := fmt.Sprintf("lib-input@%s#%s#%d", FuncKey(t.Fn), t.Label, ai)
+							if w5seen[key+k] {
+								continue
+							}
+							w5seen[key+k] = true
+							okIn, why := fileTextOrigin(a, 0)
+							r.Check(okIn, "C18.W5", key+"#"+k, p.Pos(t.Pos), "the text given to the library is the content of the file named on the command line, unchanged", "the text given to "+t.Label+" is not the file's content as read: "+why+" (a command that edits its input before the library sees it gives other results than the library does on the same file)")
+						}
+					}
 				case "err":
 					if failed == "" {
 						failed = "non-nil error from " + t.Label
@@ -484,4 +502,88 @@ func describeOrigin(p *Prog, v AV) string {
 		return fmt.Sprintf("%s at %s", describeValue(p, val), p.Pos(v.Origin.Pos()))
 	}
 	return fmt.Sprintf("%T at %s", v.Origin, p.Pos(v.Origin.Pos()))
+}
+
+// fileTextOrigin: v is the content of a file as read (os.ReadFile / ioutil.ReadFile / io.ReadAll), possibly converted
+// between []byte and string and passed through helpers of the command package that return it as is; constants and
+// command-line arguments themselves are accepted too.
+func fileTextOrigin(v ssa.Value, depth int) (bool, string) {
+	if depth > 6 {
+		return false, "origin too deep to follow"
+	}
+	switch x := v.(type) {
+	case *ssa.Const:
+		return true, ""
+	case *ssa.Convert:
+		return fileTextOrigin(x.X, depth+1)
+	case *ssa.ChangeType:
+		return fileTextOrigin(x.X, depth+1)
+	case *ssa.Extract:
+		if call, ok := x.Tuple.(*ssa.Call); ok {
+			return fileTextCall(call, x.Index, depth)
+		}
+	case *ssa.Call:
+		return fileTextCall(x, 0, depth)
+	case *ssa.Phi:
+		for _, e := range x.Edges {
+			if ok, why := fileTextOrigin(e, depth+1); !ok {
+				return false, why
+			}
+		}
+		return true, ""
+	case *ssa.UnOp:
+		if x.Op == token.MUL {
+			switch a := x.X.(type) {
+			case *ssa.Alloc:
+				okAll, why := true, ""
+				n := 0
+				if refs := a.Referrers(); refs != nil {
+					for _, ref := range *refs {
+						if st, ok := ref.(*ssa.Store); ok && st.Addr == a {
+							n++
+							if ok, w := fileTextOrigin(st.Val, depth+1); !ok {
+								okAll, why = false, w
+							}
+						}
+					}
+				}
+				if n > 0 {
+					return okAll, why
+				}
+			case *ssa.IndexAddr:
+				if ld, ok := a.X.(*ssa.UnOp); ok {
+					if g, ok := ld.X.(*ssa.Global); ok && g.Pkg != nil && g.Pkg.Pkg.Path() == "os" && g.Name() == "Args" {
+						return true, ""
+					}
+				}
+			}
+		}
+	}
+	return false, "it is " + v.String() + " (" + fmt.Sprintf("%T", v) + ")"
+}
+
+func fileTextCall(call *ssa.Call, index int, depth int) (bool, string) {
+	name := funcFullName(ssaCalleeObj(call))
+	switch name {
+	case "os.ReadFile", "io/ioutil.ReadFile", "io.ReadAll", "io/ioutil.ReadAll":
+		return index == 0, ""
+	}
+	f := call.Call.StaticCallee()
+	if f != nil && IsModuleFunc(f) && isCmdPkg(RelPkg(f)) && f.Blocks != nil {
+		n := 0
+		for _, b := range f.Blocks {
+			for _, ins := range b.Instrs {
+				if ret, ok := ins.(*ssa.Return); ok && index < len(ret.Results) {
+					n++
+					if ok, why := fileTextOrigin(ret.Results[index], depth+1); !ok {
+						return false, why
+					}
+				}
+			}
+		}
+		if n > 0 {
+			return true, ""
+		}
+	}
+	return false, "it is the result of " + name
 }
